@@ -114,7 +114,7 @@ pub fn step_summary(s: &StepKind) -> String {
 }
 
 fn run(h: &History, cx: &mut Cx) -> CaseResult {
-    let mut w = World::new(&cx.scratch, &h.initial);
+    let mut w = World::for_history(&cx.scratch, h);
     let mut n = 0u32;
     let mut completed_backups = 0;
     let mut mutated_between = false;
